@@ -25,7 +25,7 @@ WT = "/tmp/verif-seedrepo"          # scratch worktree: /repo itself is never to
 
 
 def main():
-    ids = sys.argv[1:] or sorted(d for d in os.listdir(SEEDED) if re.fullmatch(r"C\d\d-[A-D]", d))
+    ids = sys.argv[1:] or sorted(d for d in os.listdir(SEEDED) if re.fullmatch(r"C\d\d-[A-F]", d))
     sh(f"git -C /repo worktree remove --force {WT}")
     if sh(f"git -C /repo worktree add --detach {WT} HEAD").returncode:
         print("cannot create the scratch worktree")
